@@ -1,14 +1,71 @@
-P = {
-    "level_text": "Theorems (kernel-checked) about FunctionData's store with Go's slice sharing made explicit (structs holding (array id, length); DataCopy copies the struct; the filter-less update adopts the caller's struct, which is also the event payload; engine writes in place or into fresh arrays as model/update.go does). Proved for histories of any length from any reachable state and every member of the family: across DataCopy, replace and merge-path updates (identifier-based partial updates, non-persisting filter-less updates; local or remote; persisting or not; succeeding or failing) every retained value other than the adopted struct reads what it read at hand-out (c11_snapshot_stable_partial, c11_datacopy_stable: the earlier history may be arbitrary); a merge-path update that does not persist, or fails, leaves the stored data exactly as it was; for members whose fast path stores a copy (fastpathAdopts off, fixes/c04/04) EVERY value ever handed in or out is stable across such histories (c11_every_handle_stable: the store never points to a struct the application holds). NEW, exact regions of clauses 2 and 3 (every member, every shape, local or remote): a non-persisting update, and an update reported as failed (persisting or not), leave the stored data exactly as it was whenever the delete filter names no elements and the partial part addresses, on an in-place path, no stored item it may write (c11_nonpersist_noop_exact, c11_failed_noop_exact: merge path, delete by selector, selector matching nothing, remote updates meeting unwritable items only are inside); a LOCAL update is never reported as failed (c11_failed_is_remote); each of the six refutation witnesses violates exactly one hypothesis (c11_noop_refuted_is_outside). All three clauses are REFUTED on the code as written by kernel-checked witnesses (in-place writes of copyToSelectedData / copyToAllData / RemoveElementFromItem, adopted pointer), each replayed on the real code on every run; they are known findings because the repository's own suite codifies the in-place behaviour.",
-    "level_note": "AUDIT: design/audit-C11.md. /repo now probes to Heap.patched (fastpathAdopts off): c11_every_handle_stable applies to it. Trusted: Lean kernel; hand-written models Spine.Update / Spine.UpdateF / Spine.Heap; the harness and its codec. Tie: differential run on real FunctionData stores of 79 list functions (quick: 16 representative at volume, the rest lightly; thorough: all at volume) with every value ever handed in or out (inputs, DataCopy results, returned data, event payloads) retained, deep-copied as JSON at hand-out and re-read after every op; the composed device (FeatureLocal / FeatureRemote DataCopy, SetData, UpdateData, write / notify / reply datagrams, event payloads). Only refuted + partial: all three clauses (no repaired member: DESIGN §9). Monitored only, not modelled: the use-case helpers of EntityLocal on NodeManagementUseCaseData (the two findings usecase-helper-inplace:* were repaired by /repo 478c80b - both lists are cloned before the change; re-checked in the deepening round: the composed-world monitor is silent on HEAD for seeds 1..5; no heap model / stability theorem of the repaired helpers yet). Clause 1 is not widened beyond Op.Safe histories for retained handles. Not covered: the concurrent clause (reported under C17).",
-    "props_modules": ["Spine.Props.C11"],
-    "lemma_modules": ["Spine.UpdateF", "Spine.Heap", "Spine.C04Thm", "Spine.HeapThm", "Spine.C04Wit", "Spine.C04Applied"],
-    "drivers": ["drv_heap"],
-    "tests": [{"name": "TestHeap"}],
-    "trusted_base": [
-        "models Spine.Update (shared with C02), Spine.UpdateF, Spine.Heap written by hand from model/update.go, model/collection_operations.go, spine/function_data.go",
-        "abstract <-> concrete value codec of go/comp/heap_test.go; snapshots are compared as JSON text and as abstract items",
-        "sort.Slice behaves as insertion sort for lists of at most 12 items",
-    ],
-    "assumptions": ["A-json (composed-world part only)", "schedules: sequential histories only; the concurrent clause of C11 is a data race reported by C17"],
-}
+P = {'level_text': "Theorems (kernel-checked) about FunctionData's store with Go's slice sharing made explicit (structs holding (array id, length); DataCopy copies the struct; the filter-less update "
+               "adopts the caller's struct, which is also the event payload; engine writes in place or into fresh arrays as model/update.go does). Proved for histories of any length from any "
+               'reachable state and every member of the family: across DataCopy, replace and merge-path updates (identifier-based partial updates, non-persisting filter-less updates; local or '
+               'remote; persisting or not; succeeding or failing) every retained value other than the adopted struct reads what it read at hand-out (c11_snapshot_stable_partial, c11_datacopy_stable: '
+               'the earlier history may be arbitrary); a merge-path update that does not persist, or fails, leaves the stored data exactly as it was; for members whose fast path stores a copy '
+               '(fastpathAdopts off, fixes/c04/04) EVERY value ever handed in or out is stable across such histories (c11_every_handle_stable: the store never points to a struct the application '
+               'holds). NEW, exact regions of clauses 2 and 3 (every member, every shape, local or remote): a non-persisting update, and an update reported as failed (persisting or not), leave the '
+               'stored data exactly as it was whenever the delete filter names no elements and the partial part addresses, on an in-place path, no stored item it may write '
+               '(c11_nonpersist_noop_exact, c11_failed_noop_exact: merge path, delete by selector, selector matching nothing, remote updates meeting unwritable items only are inside); a LOCAL update '
+               'is never reported as failed (c11_failed_is_remote); each of the six refutation witnesses violates exactly one hypothesis (c11_noop_refuted_is_outside). All three clauses are REFUTED '
+               'on the code as written by kernel-checked witnesses (in-place writes of copyToSelectedData / copyToAllData / RemoveElementFromItem, adopted pointer), each replayed on the real code on '
+               "every run; they are known findings because the repository's own suite codifies the in-place behaviour. ROUND 4 (Props/C11Snap, Props/C11Gen): USE-CASE DATA - "
+               'NodeManagementUseCaseData is read-modified-written through a one-level DataCopy, so both slice levels are shared with every value handed out; model Spine.UCS (heap with both levels, '
+               'the helpers of model/nodemanagement_additions.go and usecaseinformation_additions.go as programs of heap writes in the order of the code). Proved at full strength for the member '
+               '/repo is (clone before the change, append to a clipped slice, filter into a new list): along ANY history of EntityLocal helper calls, of model-level helpers run by the application on '
+               "a fresh copy of its own or on a value it was handed earlier, and of hand-outs, every value handed out at any point and the store's value at that point read the same after ANY later "
+               'history (c11_usecase_snapshots_stable); a scratch helper never changes the store (c11_scratch_helper_keeps_store); the bridge c11_owned_writes_keep_snapshots: ANY program of heap '
+               'writes whose element assignments all go to arrays it allocated itself keeps every earlier value, and the modelled programs are of that kind (c11_usecase_programs_write_owned). '
+               "CROSS-MODEL AGREEMENT with C20's value-level registry Spine.UC, proved for every well-formed heap and every input: what the store reads after a helper program equals the registry "
+               'operation applied to what it read before (c11_usecase_program_is_the_registry_operation), and along any history from the empty store the store reads the fold of the registry '
+               "operations of the EntityLocal helper calls, hand-outs and the application's own helper calls playing no role (c11_usecase_store_is_the_registry). Refuted members (kernel-checked "
+               'witnesses): in-place filtering list[:0] in RemoveUseCaseDataForAddress (the value shows the following entity twice; invisible when the last element is removed; the store is the same '
+               'for every member), and the two in-place helpers before /repo 478c80b. REGENERATED from the SSA form of the tree on every run (go/snapfacts): no function of package model outside the '
+               'update engine (not reachable from the exported generic UpdateList) writes through a slice it did not allocate - element store, field of an element, mutating method on an element, '
+               'copy, in-place slices.* / sort.*, append into spare capacity (c11_helpers_write_only_own_slices, non-vacuous: c11_helpers_write_somewhere). CONCURRENT CLAUSE - model Spine.SnapConc '
+               '(micro-step interleavings of DataCopy against any number of in-place updaters): with the copy inside the critical section, on EVERY schedule every copied word is the word of the '
+               "store at the reader's acquire, one of the states the store went through (c11_snapshot_is_one_state); refuted for the member that fetches the pointer under the mutex and copies after "
+               'the unlock (c11_snapshot_refuted_copy_after_unlock). The member is selected by the source: regenerated table of every access to the stored pointer of spine.FunctionData and through '
+               'it, with the mutexes held, walked from every exported method of the type and of the types embedding it (helpers, closures, defer vs explicit unlock looked through): all static '
+               'accesses covered, ONE mutex disciplines them (reads at least read-locked, the pointer assignment and the in-place UpdateList call locked, the pointer never escapes), the copy of '
+               'DataCopy / ReplyCmdType / NotifyOrWriteCmdType is inside the critical section (c11_store_accesses_covered, c11_store_disciplined, c11_copy_inside_critical_section, '
+               'c11_inplace_update_inside_critical_section, c11_source_snapshot_is_one_state).',
+ 'level_note': 'AUDIT: design/audit-C11.md. /repo now probes to Heap.patched (fastpathAdopts off): c11_every_handle_stable applies to it. Trusted: Lean kernel; hand-written models Spine.Update / '
+               'Spine.UpdateF / Spine.Heap; the harness and its codec. Tie: differential run on real FunctionData stores of 79 list functions (quick: 16 representative at volume, the rest lightly; '
+               'thorough: all at volume) with every value ever handed in or out (inputs, DataCopy results, returned data, event payloads) retained, deep-copied as JSON at hand-out and re-read after '
+               'every op; the composed device (FeatureLocal / FeatureRemote DataCopy, SetData, UpdateData, write / notify / reply datagrams, event payloads). Only refuted + partial: all three '
+               'clauses (no repaired member: DESIGN §9). ROUND 4: the use-case helpers are now modelled (Spine.UCS), proved (Props/C11Snap) and compared on every run (TestSnap, driver drv_ucsnap: '
+               'three local entities, every value handed out retained and JSON-compared after every op, store and retained values compared with the model op by op; corpus, exhaustive 450-history '
+               'single-op grid, random histories); the static face is regenerated (go/snapfacts part B). The concurrent clause is a theorem about the interleaving model Spine.SnapConc whose member '
+               'is selected by the regenerated store discipline (go/snapfacts part A), plus a concurrent SEARCH on the real generic spine.FunctionData with a wide value type (2 writers partial/full, '
+               '4 readers, 0.8 s quick / 5 s thorough; SPEC: every snapshot is one store state) - a search, not steered (no yield hook inside DataCopy): on a tree whose copy is outside the critical '
+               'section it found the mixed snapshot in every run made (seeded C11-r4-2, own mutants), and the proof obligation fails deterministically. Trusted in addition: the SSA walkers of '
+               'go/snapfacts (limits in design/audit-C11.md: pointers to elements travelling through variables, reflection); the micro-step reading of sync.Mutex in Spine.SnapConc; hand-written '
+               "Spine.UCS (programs transcribed from the helpers; its store semantics is PROVED equal to C20's value-level model Spine.UC - Spine.UseCaseSnapRefine - and compared with the real code "
+               'op by op). Clause 1 is not widened beyond Op.Safe histories for retained handles of list stores.',
+ 'props_modules': ['Spine.Props.C11', 'Spine.Props.C11Snap', 'Spine.Props.C11Gen'],
+ 'generated_props': ['Spine.Props.C11Gen'],
+ 'generated': ['snapfacts'],
+ 'generated_files': ['SnapFacts.lean'],
+ 'lemma_modules': ['Spine.UpdateF',
+                   'Spine.Heap',
+                   'Spine.C04Thm',
+                   'Spine.HeapThm',
+                   'Spine.C04Wit',
+                   'Spine.C04Applied',
+                   'Spine.SnapFacts',
+                   'Spine.UseCaseSnap',
+                   'Spine.UseCaseSnapThm',
+                   'Spine.UseCaseSnapRefine'],
+ 'drivers': ['drv_heap', 'drv_ucsnap'],
+ 'tests': [{'name': 'TestHeap'}, {'name': 'TestSnap'}],
+ 'trusted_base': ['models Spine.Update (shared with C02), Spine.UpdateF, Spine.Heap written by hand from model/update.go, model/collection_operations.go, spine/function_data.go',
+                  'abstract <-> concrete value codec of go/comp/heap_test.go; snapshots are compared as JSON text and as abstract items',
+                  'sort.Slice behaves as insertion sort for lists of at most 12 items',
+                  'go/snapfacts (own Go module, golang.org/x/tools v0.29.0 go/packages + go/ssa): lock-state and stored-pointer walk from the exported methods of spine.FunctionData; slice-origin '
+                  'classification per function of package model; run by translator generator `snapfacts`',
+                  'hand-written models Spine.UCS (use-case helpers as heap-write programs) and Spine.SnapConc (mutex micro-steps); world, op language and renderer of go/comp/usecase_test.go (C20) '
+                  'reused by go/comp/snap_test.go'],
+ 'assumptions': ['A-json (composed-world part only)',
+                 'schedules: list-store theorems are about sequential histories; the concurrent clause is proved on the interleaving model Spine.SnapConc (A-sched: sync.Mutex excludes; word-granular '
+                 'copies) and searched, not steered, on the real code']}
